@@ -52,7 +52,8 @@ ASSUMPTIONS = [
 ]
 REQUIRED_TAGS = ["commit-ok-root-moves", "commit-ok-same-root", "commit-false", "dangling", "ok-after-foreign-commit",
                  "noop-commit", "three-clients", "tables>=3",
-                 "journal", "j-commit-ok", "j-commit-false", "j-dangling", "j-reopen", "j-probe-readonly", "j-noop-commit", "j-reopen-after-ack"]
+                 "journal", "j-commit-ok", "j-commit-false", "j-dangling", "j-reopen", "j-probe-readonly", "j-noop-commit", "j-reopen-after-ack",
+                 "ok-same-root-publishes-carried-novel", "j-probe-after-2-commits"]
 EXPLANATION = ""
 
 KEY_DOUBLE = "nbs.updateManifest:idempotent-double-success"
@@ -123,9 +124,24 @@ def gen_one(rng, tier):
         elif k < 0.70:
             ops.append(put(c))
             ops.append(commit(c, True))
-        elif k < 0.88:
+        elif k < 0.84:
             ops.append({"c": c, "op": "rebase"})
             ops.append(commit(c, True))
+        elif k < 0.92:
+            # a Commit that fails AFTER flushing the memtable (dangling current = an own chunk that is never Put, or a
+            # possibly lost race), so that novel tables are carried; later a root-preserving Commit must publish them
+            ops.append(put(c))
+            if rng.random() < 0.5:
+                ops.append({"c": c, "op": "commit", "cur": own_ids(c)[3], "last": -1})
+            else:
+                ops.append(commit(c, True))
+            if rng.random() < 0.5:
+                d = rng.randrange(n)
+                if d != c:
+                    ops.append(put(d))
+                    ops.append(commit(d, True))
+            ops.append({"c": c, "op": "rebase"})
+            ops.append({"c": c, "op": "commit", "cur": -1, "last": -1})
         else:
             ops.append(commit(c, False))
     return {"n": n, "cap": cap, "univ": univ, "ops": ops}
@@ -136,6 +152,14 @@ def gen_journal(rng):
     ops = []
     puts = []
     n = rng.randint(4, 12)
+    if rng.random() < 0.2:
+        # several acknowledged root-changing commits without a Close, then a second handle (the backing manifest lags the journal)
+        xs = rng.sample(univ[:4], rng.choice([2, 3]))
+        for x in xs:
+            puts.append(x)
+            ops.append({"op": "put", "x": x})
+            ops.append({"op": "commit", "cur": x, "last": -1})
+        ops.append({"op": "probe", "x": 6})
     while len(ops) < n:
         k = rng.random()
         if k < 0.35:
@@ -154,6 +178,8 @@ def gen_journal(rng):
                 while last == cur:
                     last = rng.choice([0] + univ[:5])
                 ops.append({"op": "commit", "cur": cur, "last": last})
+            if rng.random() < 0.12:
+                ops.append({"op": "probe", "x": 6})
         elif k < 0.8:
             ops.append({"op": "rebase"})
         elif k < 0.95:
@@ -185,6 +211,12 @@ def gen_cases(rng, tier):
             {"c": 0, "op": "commit", "cur": 3, "last": 0}, {"c": 0, "op": "commit", "cur": 2, "last": 1},
             {"c": 0, "op": "commit", "cur": 2, "last": 3}]},
     ]
+    # lost race with flushed chunks, then a root-preserving Commit: the carried novel table must be published
+    fixed.append({"n": 2, "cap": 4, "univ": [1, 2, 3, 4, 5, 6, 7, 8], "ops": [
+        {"c": 1, "op": "put", "x": 5}, {"c": 1, "op": "commit", "cur": 5, "last": -1},
+        {"c": 0, "op": "put", "x": 1}, {"c": 0, "op": "put", "x": 2}, {"c": 0, "op": "commit", "cur": 1, "last": -1},
+        {"c": 0, "op": "rebase"}, {"c": 0, "op": "commit", "cur": -1, "last": -1},
+        {"c": 1, "op": "rebase"}]})
     cases = list(fixed)
     while len(cases) < n + len(fixed):
         cases.append(gen_one(rng, tier))
@@ -198,6 +230,11 @@ def gen_cases(rng, tier):
     cases.append({"mode": "journal", "univ": [1, 2, 3], "ops": [
         {"op": "put", "x": 1}, {"op": "commit", "cur": 2, "last": -1}, {"op": "reopen"}, {"op": "put", "x": 2},
         {"op": "commit", "cur": 1, "last": -1}, {"op": "commit", "cur": 2, "last": -1}, {"op": "reopen"}]})
+    # second handle after several acknowledged commits without a Close: the backing manifest lags the journal
+    cases.append({"mode": "journal", "univ": [1, 2, 3, 4], "ops": [
+        {"op": "put", "x": 1}, {"op": "commit", "cur": 1, "last": -1}, {"op": "put", "x": 2}, {"op": "commit", "cur": 2, "last": -1},
+        {"op": "probe", "x": 4}, {"op": "put", "x": 3}, {"op": "commit", "cur": 3, "last": -1}, {"op": "probe", "x": 4},
+        {"op": "reopen"}, {"op": "probe", "x": 4}]})
     nj = 70 if tier == "quick" else 3000
     for _ in range(nj):
         cases.append(gen_journal(rng))
@@ -241,7 +278,8 @@ def coq_jcase(case, out):
     o = (out or {}).get("obs")
     if o is None:
         return "(CJrn %s [])" % inp
-    steps = ["(JK %d %d %s %s)" % (s["res"], s["croot"], _nl(s["has"] or []), "true" if s.get("ro") else "false") for s in o["steps"]]
+    steps = ["(JK %d %d %s %s %s)" % (s["res"], s["croot"], _nl(s["has"] or []), "true" if s.get("ro") else "false", _nl(s.get("phas") or []))
+             for s in o["steps"]]
     return "(CJrn %s %s)" % (inp, cq_list(steps))
 
 
@@ -305,11 +343,14 @@ def _jwalk(case, out):
 def jclassify(case, out):
     t = ["journal"]
     acked = False
+    moves = 0     # root-changing acknowledged commits since the writer was (re)opened
     for op, s, b in _jwalk(case, out):
         if op["op"] == "commit":
             if s["res"] == 0:
                 t.append("j-commit-ok")
                 acked = True
+                if b["cur"] != b["reg"]:
+                    moves += 1
                 if b["cur"] == b["last"]:
                     t.append("j-noop-commit")
             elif s["res"] == 1:
@@ -320,12 +361,15 @@ def jclassify(case, out):
                 t.append("j-commit-error")
         elif op["op"] == "reopen":
             t.append("j-reopen")
+            moves = 0
             if acked:
                 t.append("j-reopen-after-ack")
             if s["res"] != 0:
                 t.append("j-close-error")
         elif op["op"] == "probe":
             t.append("j-probe-readonly" if s.get("ro") and s["res"] == 4 else "j-probe-other")
+            if moves >= 2:
+                t.append("j-probe-after-2-commits")
     for k in patterns(case, out):
         t.append("pattern:" + k)
     return sorted(set(t))
@@ -363,6 +407,7 @@ def classify(case, out):
     t = ["clients=%d" % case["n"], "cap=%d" % case["cap"]]
     if case["n"] == 3:
         t.append("three-clients")
+    put_since_commit = [False] * case["n"]   # did the client Put since its last Commit attempt (memtable non-empty)?
     synced_at = [0] * case["n"]      # index of the last step at which the client refreshed its view
     foreign = [-1] * case["n"]       # index of the last manifest change by another client
     idx = 0
@@ -376,6 +421,8 @@ def classify(case, out):
                 t.append("commit-ok-root-moves" if s["droot"] != b["droot"] else "commit-ok-same-root")
                 if not changed:
                     t.append("noop-commit")
+                if changed and b["cur"] == b["last"] == b["droot"] and not put_since_commit[op["c"]]:
+                    t.append("ok-same-root-publishes-carried-novel")
                 if foreign[op["c"]] > synced_at[op["c"]]:
                     t.append("ok-after-foreign-commit")
                 synced_at[op["c"]] = idx
@@ -391,10 +438,14 @@ def classify(case, out):
                 for c in range(case["n"]):
                     if c != op["c"]:
                         foreign[c] = idx
+            put_since_commit[op["c"]] = False
+        elif op["op"] == "put":
+            if s["res"] == 0:
+                put_since_commit[op["c"]] = True
+            else:
+                t.append("put-error")
         elif op["op"] == "rebase":
             synced_at[op["c"]] = idx
-        elif s["res"] != 0:
-            t.append("put-error")
     if maxtables >= 3:
         t.append("tables>=3")
     for k in patterns(case, out):
